@@ -123,6 +123,8 @@ def fnEval (k : Nat) (t : Rat) : Rat :=
   | 6 => (if t < 0 then -t else t) + 2 * t        -- scalar-only in the harness (math.fabs): TypeError on arrays
   | 7 => if t < 0 then -2 * t else t * t          -- scalar-only (`if t < 0`): ValueError on arrays
   | 8 => if 0 ≤ t then 3 * t + 1 else 1 - t       -- scalar-only, branch on the sign of t
+  | 9 => (t - 2) * (t - 2)                         -- in the harness: `t -= 2; return t*t` (writes to its argument)
+  | 10 => 2 * t + 1                                -- in the harness: `t *= 2; return t + 1` (writes to its argument)
   | _ => 0
 
 /-- the pool of frequency responses: real scalar gains (the filter is then `gain · identity`) -/
